@@ -8,6 +8,8 @@ the model) and decides whether property C05 held:
     are all other registers unless the case itself changed one between save_context and the apply (`inject … co|po x`);
   * the fixed probe evaluation prints what it printed before the failed call; the part after ` side ` (state
     installed outside the registers) may differ only when the evaluation reports a completed install (`say did-…`);
+  * a catch that caught an error leaves this_player() as it was at the catch point (`cg-changed` marker of the
+    LPC side); a completed evaluation may keep a command_giver it set itself (`say set-cg`);
   * a catch yields 0, the message of the error that was raised last (as reported to the master's error_handler),
     the injected fault, or a value thrown by the program.
 
@@ -87,7 +89,9 @@ structure JSt where
 def judgeOutcome (thrown : List String) (st : JSt) (tag text : String) : List String :=
   let o := parseOutcome text
   let fs := snapFields o.after
-  let keys := alwaysFields ++ otherFields.filter (fun k => !st.exempt.contains k)
+  -- a completed evaluation that changed command_giver itself (enable_commands, logged as `say set-cg`) keeps it
+  let cgLegit := o.segs.contains "say set-cg" && o.segs.contains "done 1"
+  let keys := (alwaysFields ++ otherFields.filter (fun k => !st.exempt.contains k)).filter (fun k => !(k == "cg" && cgLegit))
   let regBad := keys.filterMap (fun k =>
     if field fs k == field st.base k then none
     else some s!"restore {tag} {k} before={field st.base k} after={field fs k}")
@@ -98,7 +102,9 @@ def judgeOutcome (thrown : List String) (st : JSt) (tag text : String) : List St
     if sidePart o.probe != sidePart st.probe0 && !installed then
       [s!"half-install {tag} side state '{sidePart o.probe}' without a completed install"] else []
   let crashBad := if o.segs.any (fun s => s.startsWith "crash") then [s!"crash {tag} {o.segs.getLastD ""}"] else []
-  regBad ++ probeBad ++ sideBad ++ crashBad ++ checkCatches thrown o.segs
+  -- the LPC side compares this_player() before and after every catch that caught something
+  let cgBad := if o.segs.any (fun s => (s.splitOn "cg-changed").length > 1) then [s!"restore {tag} command_giver not restored by catch"] else []
+  regBad ++ probeBad ++ sideBad ++ crashBad ++ cgBad ++ checkCatches thrown o.segs
 
 def judgeLine (thrown : List String) (st : JSt) (line : String) : JSt :=
   if line.startsWith "crash" || line.startsWith "sanitizer" then { st with bad := st.bad ++ [s!"crash {line}"] }
